@@ -42,6 +42,9 @@ func derivedSetBody(s *simrt.Sim) {
 		})
 	}
 	s.Logf("config sources=%d subtract=%v noreplace=%v", nsrc, subtract, noReplace)
+	// reach probes only: the write calls per source, stamped with s.Step() (the step counter is not advanced)
+	var writes []*wcall
+	r := newReach(s)
 
 	nwriters := 1 + s.Choose(3)
 	for i := 0; i < nwriters; i++ {
@@ -77,6 +80,9 @@ func derivedSetBody(s *simrt.Sim) {
 			set := srcs[src]
 			for _, o := range ops {
 				yields(o.pre)
+				wc := &wcall{input: src, task: simrt.Current()}
+				writes = append(writes, wc)
+				wc.inv = s.Step()
 				switch o.kind {
 				case 0:
 					s.Logf("src%d.Add(%d)", src, o.a[0])
@@ -97,6 +103,7 @@ func derivedSetBody(s *simrt.Sim) {
 					s.Logf("src%d.Replace%s", src, fmtInts(o.a))
 					set.Replace(ds.NewSet(o.a...))
 				}
+				wc.ret = s.Step()
 				s.Logf("write returned")
 			}
 		})
@@ -112,6 +119,7 @@ func derivedSetBody(s *simrt.Sim) {
 
 	if subtract {
 		var result rx.Set[int]
+		var linked call
 		delay := s.Choose(5)
 		s.Go("linker", func() {
 			yields(delay)
@@ -119,18 +127,29 @@ func derivedSetBody(s *simrt.Sim) {
 			for _, o := range srcs[1:] {
 				others = append(others, o)
 			}
+			linked.inv = s.Step()
 			s.Logf("src0.SubtractReactive(others)")
 			result = srcs[0].SubtractReactive(others...)
+			linked.ret = s.Step()
 			s.Logf("SubtractReactive returned")
 		})
 		left := s.Quiesce()
 		hx.Stuck(s, "deadlock", left, nil)
+		for i, a := range writes {
+			r.hit("subtract-built-during-write-to-minuend", a.input == 0 && a.overlaps(&linked))
+			r.hit("subtract-built-during-write-to-subtrahend", a.input != 0 && a.overlaps(&linked))
+			r.hit("source-written-after-subtract-returned", a.inv >= linked.ret)
+			for _, b := range writes[i+1:] {
+				r.hit("writes-to-minuend-and-subtrahend-overlap", (a.input == 0) != (b.input == 0) && a.overlaps(&b.call) && a.retOrInf() > linked.inv && b.retOrInf() > linked.inv)
+			}
+		}
 		var want []int
 		for _, e := range contents(0) {
 			in := false
 			for i := 1; i < nsrc; i++ {
 				in = in || hasInt(contents(i), e)
 			}
+			r.hit("final-minuend-element-in-a-subtrahend", in)
 			if !in {
 				want = append(want, e)
 			}
@@ -196,6 +215,29 @@ func derivedSetBody(s *simrt.Sim) {
 	}
 	left := s.Quiesce()
 	hx.Stuck(s, "deadlock", left, nil)
+	live := 0
+	for i, l := range links {
+		if l.done.ret == 0 {
+			continue
+		}
+		if l.unlink.inv == 0 {
+			live++
+		}
+		for _, a := range writes {
+			if !hasInt(l.srcs, a.input) {
+				continue
+			}
+			r.hit("inherit-overlaps-write-to-source", a.overlaps(&l.done))
+			r.hit("unsubscribe-overlaps-write-to-source", l.unlink.inv != 0 && a.overlaps(&l.unlink))
+			r.hit("source-written-after-inherit-returned", l.unlink.inv == 0 && a.inv >= l.done.ret)
+			r.hit("source-written-after-unsubscribe-returned", l.unlink.ret != 0 && a.inv >= l.unlink.ret)
+		}
+		for _, o := range links[i+1:] {
+			r.hit("source-inherited-by-two-live-links", o.done.ret != 0 && o.unlink.inv == 0 && l.unlink.inv == 0 && intersects(o.srcs, l.srcs))
+			r.hit("unsubscribe-overlaps-inherit-of-other-link", o.done.ret != 0 && (l.unlink.inv != 0 && l.unlink.overlaps(&o.done) || o.unlink.inv != 0 && o.unlink.overlaps(&l.done)))
+		}
+	}
+	r.hit("every-link-unsubscribed", len(links) > 0 && live == 0)
 	var want []int
 	desc := ""
 	for _, l := range links {
@@ -204,6 +246,7 @@ func derivedSetBody(s *simrt.Sim) {
 		}
 		for _, k := range l.srcs {
 			for _, e := range contents(k) {
+				r.hit("final-element-inherited-more-than-once", hasInt(want, e))
 				if !hasInt(want, e) {
 					want = append(want, e)
 				}
@@ -242,9 +285,11 @@ func sortedSetBody(s *simrt.Sim) {
 	if disjoint {
 		addable, deletable, weighable = []int{1, 2}, []int{1, 2}, []int{3, 4}
 	}
+	var initial []int // reach probes only
 	for e := 1; e <= n; e++ {
 		if noAdd || disjoint && e >= 3 || s.Choose(3) == 1 {
 			ss.Add(e)
+			initial = append(initial, e)
 		}
 	}
 	s.Logf("config nodelete=%v noadd=%v disjoint=%v initial=%v", noDelete, noAdd, disjoint, ss.Descending())
@@ -265,6 +310,18 @@ func sortedSetBody(s *simrt.Sim) {
 		elems []int
 	}
 	var adds, weighs []*ecall
+	// reach probes only: calls that may remove an element (Replace: every element it does not list), all member calls
+	// with their task
+	var dels, memberCalls, changedWeighs []*ecall
+	memberTask := map[*ecall]*simrt.Task{}
+	complement := func(l []int) (out []int) {
+		for e := 1; e <= n; e++ {
+			if !hasInt(l, e) {
+				out = append(out, e)
+			}
+		}
+		return out
+	}
 
 	nmembers := 1 + s.Choose(2)
 	for i := 0; i < nmembers; i++ {
@@ -306,7 +363,18 @@ func sortedSetBody(s *simrt.Sim) {
 			for _, o := range ops {
 				yields(o.pre)
 				c := &ecall{elems: o.a}
+				memberCalls = append(memberCalls, c)
+				memberTask[c] = simrt.Current()
+				rc := c // the same call seen as a removal
+				switch o.kind {
+				case 1, 3:
+					dels = append(dels, rc)
+				case 4:
+					rc = &ecall{elems: complement(o.a)}
+					dels = append(dels, rc)
+				}
 				c.inv = s.Tick()
+				rc.inv = c.inv
 				switch o.kind {
 				case 0:
 					adds = append(adds, c)
@@ -328,6 +396,7 @@ func sortedSetBody(s *simrt.Sim) {
 					ss.Replace(ds.NewSet(o.a...))
 				}
 				c.ret = s.Tick()
+				rc.ret = c.ret
 				s.Logf("member op returned")
 			}
 		})
@@ -348,8 +417,11 @@ func sortedSetBody(s *simrt.Sim) {
 				weighs = append(weighs, c)
 				c.inv = s.Tick()
 				s.Logf("weight[%d].Set(%d)", o.e, o.w)
-				weights[o.e].Set(o.w)
+				prev := weights[o.e].Set(o.w)
 				c.ret = s.Tick()
+				if prev != o.w {
+					changedWeighs = append(changedWeighs, c)
+				}
 				s.Logf("weight set returned")
 			}
 		})
@@ -373,6 +445,60 @@ func sortedSetBody(s *simrt.Sim) {
 			}
 		}
 	}
+	r := newReach(s)
+	r.hit("weight-update-overlaps-insertion-of-same-element", suffix != "")
+	// wasMember: e was definitely a member at some moment before step t (initial member, or an insertion returned)
+	wasMember := func(e int, t uint64) bool {
+		if hasInt(initial, e) {
+			return true
+		}
+		for _, a := range adds {
+			if hasInt(a.elems, e) && a.ret != 0 && a.ret < t {
+				return true
+			}
+		}
+		return false
+	}
+	for _, wc := range changedWeighs {
+		e := wc.elems[0]
+		for _, d := range dels {
+			if !hasInt(d.elems, e) || !wasMember(e, d.inv) {
+				continue
+			}
+			r.hit("weight-change-overlaps-removal-of-same-element", d.overlaps(&wc.call))
+			if d.ret != 0 && d.ret < wc.inv {
+				// no insertion of e between the removal and the end of the weight update
+				readded := false
+				for _, a := range adds {
+					readded = readded || hasInt(a.elems, e) && a.retOrInf() > d.inv && a.inv < wc.retOrInf()
+				}
+				r.hit("weight-change-of-removed-element", !readded)
+			}
+		}
+		for _, o := range changedWeighs {
+			r.hit("weight-changes-of-same-element-overlap", o != wc && o.elems[0] == e && o.overlaps(&wc.call))
+		}
+	}
+	for _, d := range dels {
+		for _, a := range adds {
+			for _, e := range a.elems {
+				if !hasInt(d.elems, e) || !wasMember(e, d.inv) {
+					continue
+				}
+				r.hit("element-re-added-after-removal", d.ret != 0 && d.ret < a.inv)
+				r.hit("insertion-overlaps-removal-of-same-element", d.overlaps(&a.call))
+				for _, wc := range changedWeighs {
+					r.hit("weight-change-of-re-added-element", d.ret != 0 && d.ret < a.inv && a.ret != 0 && a.ret < wc.inv && wc.elems[0] == e)
+				}
+			}
+		}
+	}
+	for i, a := range memberCalls {
+		for _, b := range memberCalls[i+1:] {
+			r.hit("member-calls-overlap", memberTask[a] != memberTask[b] && a.overlaps(&b.call))
+		}
+	}
+	r.hit("final-set-empty", len(asc) == 0)
 	// with that overlap all symptoms are one finding (the unlocked weight callback of addSorted); without it every
 	// symptom keeps its own signature
 	bad := func(sym string) {
@@ -390,7 +516,9 @@ func sortedSetBody(s *simrt.Sim) {
 		}
 	}
 	for i := 1; i < len(asc); i++ {
-		if wOf(asc[i-1]) > wOf(asc[i]) {
+		wa, wb := wOf(asc[i-1]), wOf(asc[i])
+		r.hit("final-order-with-equal-weights", wa == wb)
+		if wa > wb {
 			bad("not-ordered-by-current-weight")
 		}
 	}
